@@ -11,9 +11,12 @@ THEOREMS = ["Mmtk.Sched.parked_count_exact", "Mmtk.Sched.pool_count_exact", "Mmt
             "Mmtk.Sched.all_parked_no_work", "Mmtk.Sched.gc_never_sleeps_partial", "Mmtk.Sched.designated_not_forgotten",
             "Mmtk.Sched.stranded_with_mutator_push", "Mmtk.Sched.reachable_inv", "Mmtk.Sched.step_invA",
             "Mmtk.Sched.step_invB", "Mmtk.Sched.step_invC",
-            "Mmtk.Sched.gc_completes_under_fairness", "Mmtk.Sched.request_leads_to_goal", "Mmtk.Sched.all_workers_park_eventually", "Mmtk.Sched.gc_in_progress_completes", "Mmtk.Sched.live_hypotheses_satisfiable", "Mmtk.Sched.last_park_eventually", "Mmtk.Sched.gc_done_changes", "Mmtk.Sched.gc_request_completes", "Mmtk.Sched.Stuck.false"]
+            "Mmtk.Sched.gc_completes_under_fairness", "Mmtk.Sched.request_leads_to_goal", "Mmtk.Sched.all_workers_park_eventually", "Mmtk.Sched.gc_in_progress_completes", "Mmtk.Sched.live_hypotheses_satisfiable", "Mmtk.Sched.last_park_eventually", "Mmtk.Sched.gc_done_changes", "Mmtk.Sched.gc_request_completes", "Mmtk.Sched.Stuck.false",
+            # a stop request that arrives while a GC is in progress is not lost at the end of the GC
+            "Mmtk.Sched.no_lost_request_at_gc_end", "Mmtk.Sched.exit_request_survives_gc", "Mmtk.Sched.onLastParked_completing",
+            "Mmtk.Sched.onLastParked_keeps_exit_reqs"]
 # which failure keys belong to this property
-KEYS = S.COMMON_KEYS + ("sched:parked-count",
+KEYS = S.COMMON_KEYS + S.STOP_KEYS + ("sched:parked-count",
         "sched:park-with-work", "sched:request", "sched:request-flag", "sched:all-parked-wrong")
 
 META = {
@@ -26,7 +29,12 @@ META = {
             "still-polling worker (no stranded packet), under the explicit hypothesis that mutators do not push into open "
             "buckets, whose necessity is shown by a kernel-evaluated witness (the ConcurrentImmix SATB-barrier race with "
             "one worker). Tie: event-log conformance — every event of real GCs (all plans, 1..16 workers, yield points "
-            "armed, packet storms) must be an enabled action of the model; outcome oracles (watchdog, parked counter).",
+            "armed, packet storms) must be an enabled action of the model; outcome oracles (watchdog, parked counter). "
+            "Requests arriving DURING a collection: hx_gc `forkgc` / `shutdowngc` make VerifVM call prepare_to_fork() / "
+            "mmtk_shutdown() from inside stop_all_mutators, scan_vm_specific_roots, process_weak_refs (on the GC thread, "
+            "Gc goal current) or at resume_mutators (helper thread), then join the GC threads; the monitor checks the "
+            "completing park against the model's `respond` (no_lost_request_at_gc_end / exit_request_survives_gc) and "
+            "the watchdog turns a lost request into sched:hang.",
     "note": "Liveness is proved: gc_completes_under_fairness — on every infinite run that is weakly fair per worker action "
             "class (finish / take / look / miss / park / wake / surrender), spawns finitely many packets (FiniteSpawn), has "
             "finitely many environment actions and spurious wake-ups (FiniteEnv; with unboundedly many, two workers can "
@@ -44,6 +52,8 @@ META = {
 def build_programs(rng, tier):
     progs = S.gen_programs(rng, tier, want_fork=False, count=36 if tier == "quick" else 400)
     progs += S.conc_programs(rng, 4 if tier == "quick" else 60)
+    # a StopForFork / Shutdown request made while a collection is in progress (seeded regression C14: lost request)
+    progs += S.forkgc_programs(rng, 10 if tier == "quick" else 120)
     return progs
 
 
